@@ -39,9 +39,19 @@ StepOp(e) ==
         "adapter_lowering_transcription", [op |-> e.op, nparent |-> Len(e.parent)])
   /\ fb' = ApplyAll(fb, pbox, e.parent)        \* continue from what the implementation did
   /\ UNCHANGED <<pbox, stack, native>>
+\* an operation on a huge area: only the prefix of the parent's pixel stream is judged; fb is not tracked
+StepHugeOp(e) ==
+  /\ e.ev = "hugeop"
+  /\ Report(e.case, HugeFails(pbox, stack, e.op, e.parent), [op |-> [m |-> e.op.m, area |-> e.op.area], nparent |-> Len(e.parent)])
+  /\ UNCHANGED <<pbox, stack, fb, native>>
+\* an operation that panicked did not leave the parent "exactly as if the operation had been applied"
+StepOpPanic(e) ==
+  /\ e.ev = "oppanic"
+  /\ Report(e.case, {"operation_panicked"}, [op |-> e.op, msg |-> e.msg, loc |-> e.loc])
+  /\ UNCHANGED <<pbox, stack, fb, native>>
 StepPanic(e) == e.ev = "panic" /\ UNCHANGED <<pbox, stack, fb, native>>
 Next == /\ l <= NRec
-        /\ LET e == Rec[l] IN StepCase(e) \/ StepStack(e) \/ StepOp(e) \/ StepPanic(e)
+        /\ LET e == Rec[l] IN StepCase(e) \/ StepStack(e) \/ StepOp(e) \/ StepHugeOp(e) \/ StepOpPanic(e) \/ StepPanic(e)
         /\ l' = l + 1
 Spec == Init /\ [][Next]_<<l, pbox, stack, fb, native>>
 Done == IF TLCGet("stats").diameter = NRec + 1
